@@ -183,6 +183,46 @@ def gen_kernel(isa, n, shape, marked=False, rnd=None, blanks=False):
     return "\n".join(lines) + "\n"
 
 
+def half_known_lines(arch, isa, limit=4):
+    """Instructions the model knows a latency but no throughput for (or the other way round): they lack performance
+    data like a made-up mnemonic does - marked X, counted by the missing-data warning.  Read from the model file by
+    a plain YAML load; only all-register forms are rendered."""
+    import ruamel.yaml
+
+    path = os.path.join(env.REPO, "osaca", "data", arch + ".yml")
+    with open(path) as f:
+        model = ruamel.yaml.YAML(typ="safe").load(f)
+    x86 = {"gpr": ["%rax", "%rbx", "%rcx"], "xmm": ["%xmm1", "%xmm2", "%xmm3"], "ymm": ["%ymm1", "%ymm2", "%ymm3"]}
+    out = []
+    for form in model.get("instruction_forms") or []:
+        tp, lat = form.get("throughput"), form.get("latency")
+        if (tp is None) == (lat is None):
+            continue
+        ops = form.get("operands") or []
+        regs = []
+        for i, o in enumerate(ops):
+            if o.get("class") != "register":
+                regs = None
+                break
+            if isa == "x86":
+                if o.get("name") not in x86:
+                    regs = None
+                    break
+                regs.append(x86[o["name"]][i % 3])
+            else:
+                if o.get("prefix") not in ("x", "w", "d", "s", "q") or o.get("shape"):
+                    regs = None
+                    break
+                regs.append("%s%d" % (o["prefix"], i + 1))
+        if not regs:
+            continue
+        names = form["name"] if isinstance(form["name"], list) else [form["name"]]
+        out.append("%s %s" % (str(names[0]).lower(), ", ".join(regs)))
+        if len(out) >= limit:
+            break
+    return out
+
+
 def special_kernels(isa):
     p = POOL[isa]
     ks = {}
@@ -466,6 +506,17 @@ def main(tier, seed):
         if defaults[isa] not in empty:
             add("text", ks["chain"], isa, None, via="cli", gen="chain")
             n_cli += 1
+        # instructions with half of their performance data (zen1: rcpss, sqrtsd; tx2: one form) next to a made-up one
+        for arch in archs[isa]:
+            if arch not in ("zen1", "tx2", "n1", "zen4"):
+                continue
+            hk = half_known_lines(arch, isa)
+            if hk:
+                p = POOL[isa]
+                text = "\n".join([p["known"][0]] + hk + [p["unknown"][0], p["known"][1]]) + "\n"
+                for ign in (False, True):
+                    add("text", text, isa, arch, ign=ign, via="cli", gen="half-known")
+                    n_cli += 1
     # R2b: injection of the emitted value table
     per = 60
     vals = list(tvals)
